@@ -250,6 +250,7 @@ class Interp:
     def _split(self, states, c, fn, depth):
         t, f = [], []
         for s in states:
+            s.env = dict(s.env)     # a condition may increment a counter
             try:
                 v = self.cond(c, s.env, depth)
             except AbsThrow:
